@@ -8,6 +8,7 @@ CONSTANTS
   HierDepth = 2
   XDepth = 1
   SelfDepth = 2
+  FormDepth = 2
   Wide = TRUE
   EmitCases = TRUE
 INIT Init
